@@ -2,6 +2,7 @@
 //!   C23  degrees   TransitionConstraintDegree / AirContext degree, blowup, exemption and column rules
 //!        divisor   ConstraintDivisor::from_transition (direct and through TransitionConstraints::new)
 //!        periodic  Air::get_periodic_column_polys evaluated the way the verifier evaluates them
+//!        transeval the prover's DefaultConstraintEvaluator: periodic table, frames, transition divisor with exemptions
 //!   C22  boundary  BoundaryConstraints::new: constraints, groups, divisors, coefficient assignment
 //!   C28  lde       RowMatrix::evaluate_polys(_over), ColMatrix::{interpolate_columns, evaluate_columns_*}
 //!        commit    RowMatrix::commit_to_rows / ColMatrix::commit_to_rows against digest terms
@@ -18,6 +19,7 @@ mod lde;
 mod periodic;
 mod pool;
 mod toyair;
+mod transeval;
 
 fn main() {
     let args: Vec<String> = std::env::args().collect();
@@ -26,11 +28,12 @@ fn main() {
         Some("degrees") => degrees::main(&args[2..]),
         Some("divisor") => divisor::main(&args[2..]),
         Some("periodic") => periodic::main(&args[2..]),
+        Some("transeval") => transeval::main(&args[2..]),
         Some("boundary") => boundary::main(&args[2..]),
         Some("lde") => lde::main(&args[2..]),
         Some("commit") => commit::main(&args[2..]),
         _ => {
-            eprintln!("usage: wf-airalg <degrees|divisor|periodic|boundary|lde|commit> <scenarios.ndjson> [threads,...]");
+            eprintln!("usage: wf-airalg <degrees|divisor|periodic|transeval|boundary|lde|commit> <scenarios.ndjson> [threads,...]");
             2
         },
     };
